@@ -47,6 +47,8 @@ pub enum BaseStream {
     },
     #[cfg(test)]
     Mock(Cursor<Vec<u8>>),
+    #[cfg(kani)]
+    Verif(crate::verif::Scripted),
 }
 
 impl BaseStream {
@@ -59,6 +61,8 @@ impl BaseStream {
         debug!("trying to connect to {}:{}", host, port);
 
         let stream = match connect_url.scheme() {
+            #[cfg(kani)]
+            scheme @ ("http" | "https") => crate::verif::dial(&host, port, scheme).map(BaseStream::Verif),
             "http" => BaseStream::connect_tcp(&host, port, info)
                 .map(|(stream, timeout)| BaseStream::Plain { stream, timeout }),
             "https" => BaseStream::connect_tls(&host, port, info),
@@ -193,6 +197,8 @@ impl Read for BaseStream {
             BaseStream::Tunnel { stream } => stream.read(buf),
             #[cfg(test)]
             BaseStream::Mock(s) => s.read(buf),
+            #[cfg(kani)]
+            BaseStream::Verif(s) => s.read(buf),
         }
     }
 }
@@ -204,6 +210,8 @@ impl Write for BaseStream {
             BaseStream::Plain { stream, .. } => stream.write(buf),
             BaseStream::Tls { stream, .. } => stream.write(buf),
             BaseStream::Tunnel { stream } => stream.write(buf),
+            #[cfg(kani)]
+            BaseStream::Verif(s) => s.write(buf),
             #[cfg(test)]
             _ => Ok(0),
         }
@@ -215,6 +223,8 @@ impl Write for BaseStream {
             BaseStream::Plain { stream, .. } => stream.flush(),
             BaseStream::Tls { stream, .. } => stream.flush(),
             BaseStream::Tunnel { stream } => stream.flush(),
+            #[cfg(kani)]
+            BaseStream::Verif(s) => s.flush(),
             #[cfg(test)]
             _ => Ok(()),
         }
@@ -254,3 +264,6 @@ fn apply_base_settings(handshaker: &mut TlsHandshaker, base_settings: &BaseSetti
         handshaker.add_root_certificate(cert.clone());
     }
 }
+
+#[cfg(kani)]
+include!(concat!(env!("ATTOHTTPC_VERIF_HARNESS"), "/streams.rs"));
